@@ -432,7 +432,13 @@ class PointsSlice(Contract):
             cx.oblige("post.aligned.length", T.eq(mask.shape[0], self.n) if okm else False, "post", "the mask has one entry per input position")
             if okm:
                 (k,) = fresh_index(cx, (self.n,))
-                cx.oblige("post.aligned", T.eq(mask.get((k,)), True), "post", "every observation lies in the one interval")
+                info = itp.scratch.get("argsort_info")
+                if info is None:
+                    cx.oblige("post.aligned", False, "post", "no argsort of the data")
+                    return
+                rank = info[1](k)   # naming the rank of position k gives the solver the witness (the mask is stored through the sorted positions)
+                cx.oblige("post.aligned", T.eq(mask.get((k,)), T.land(T.le(0, rank), T.lt(rank, self.n))), "post", "mask 0 is True at INPUT position k iff the rank of data[k] lies in [0, n)")
+                cx.oblige("post.aligned.all", T.land(T.le(0, rank), T.lt(rank, self.n)), "post", "every rank does: every observation lies in the one interval")
             return
         want_m = self.q if case["rem"] == "zero" else self.q + 1
         cx.oblige("post.n_chunks", T.eq(m, want_m), "post", "one interval per full chunk plus one for the remainder")
